@@ -1019,10 +1019,14 @@ pub fn gen_header(rng: &mut Rng, u: &Universe, k: &GenKnobs) -> (Vec<String>, Ve
             }
             7 => format!("{}.{}", rng.pick(&u.pkgs), rng.pick(&u.names)),
             9 => {
-                // declarations with a path that share a dotted tail: a.m.Foo, zz.m.Foo
+                // declarations with a path that share a dotted tail: a.m.Foo, zz.m.Foo (often both)
                 let n = rng.pick(&u.names).clone();
-                let head = *rng.pick(&["a", "zz", "b.c"]);
-                format!("{head}.m.{n}")
+                let mut heads = ["a", "zz", "b.c"];
+                rng.shuffle(&mut heads);
+                if rng.pct(70) {
+                    fwd.push(format!("{}.m.{n}", heads[1]));
+                }
+                format!("{}.m.{n}", heads[0])
             }
             8 if !fwd.is_empty() => rng.pick(&fwd).clone(),
             _ => "Fwd".to_owned(),
